@@ -86,7 +86,6 @@ Qed.
 (* ---- for_range over (view, items): the body consumes at least w octets and appends one item ---- *)
 Section SimpleLoop.
 Context {A : Type} (body : bytes * list A -> res ((bytes * list A) * Z)) (w : Z).
-Hypothesis w_pos : 1 <= w.
 Hypothesis Hstep : forall v acc, noof (body (v, acc)) /\
   forall s' t, body (v, acc) = Ok (s', t) -> t = 0 /\ w <= len v - len (fst s') /\ len (snd s') = len acc + 1.
 
